@@ -22,7 +22,7 @@ Fresh(ka) ==
   /\ track' = [q \in Svc |-> {}]
   /\ nextId' = 0 /\ dead' = FALSE /\ mgr' = {}
   /\ cnt' = [opens |-> 0, inb |-> 0, fc |-> 0, exp |-> 0, full |-> 0]
-  /\ blk' = <<>>
+  /\ blk' = <<>> /\ deadq' = {}
   /\ KA' = ka
   /\ mon' = MonInit /\ hist' = <<>> /\ out' = [ret |-> [k |-> "none"], panic |-> FALSE]
 
@@ -33,7 +33,7 @@ TInit == /\ l = 1
          /\ track = [q \in Svc |-> {}]
          /\ nextId = 0 /\ dead = FALSE /\ mgr = {}
          /\ cnt = [opens |-> 0, inb |-> 0, fc |-> 0, exp |-> 0, full |-> 0]
-         /\ blk = <<>>
+         /\ blk = <<>> /\ deadq = {}
          /\ KA = [q \in Svc |-> q = 0]
          /\ mon = MonInit /\ hist = <<>> /\ out = [ret |-> [k |-> "none"], panic |-> FALSE]
 
@@ -46,7 +46,8 @@ Idle(s, ret) ==
   /\ Handle(s, ret, FALSE)
 
 ImplAct(s, r) ==
-  CASE s.a = "est" -> Est(s.p)
+  CASE s.a = "est" -> Est(s.p, s.full)
+    [] s.a = "dropproto" -> DropProto(s.q)
     [] s.a = "close" -> Close(s.c, s.clog)
     [] s.a = "drop" -> Drop(s.c)
     [] s.a = "poll" -> IF chan[s.q] = <<>> THEN Idle(s, [k |-> "pending"]) ELSE Poll(s.q)
@@ -55,7 +56,7 @@ ImplAct(s, r) ==
                         THEN Idle(s, [k |-> "pending"]) ELSE Cmd(s.c)
     [] s.a = "reply" -> \E x \in pend[s.c] : x.id = s.id /\ Reply(s.c, x, s.ok, s.full)
     [] s.a = "inbound" -> Inbound(s.c, s.q, s.full)
-    [] s.a = "deliver" -> IF Busy(s.c) /\ PhysLen(blk[s.c].q) >= PCap THEN Idle(s, [k |-> "blocked"]) ELSE Deliver(s.c)
+    [] s.a = "deliver" -> IF Busy(s.c) /\ blk[s.c].q \notin deadq /\ PhysLen(blk[s.c].q) >= PCap THEN Idle(s, [k |-> "blocked"]) ELSE Deliver(s.c)
     [] s.a = "fclose" -> IF conns[s.q][s.p].pri = 0 THEN Idle(s, [k |-> "err"]) ELSE FClose(s.q, s.p)
     [] s.a = "expire" -> IF <<s.p, s.c>> \notin track[s.q] THEN Idle(s, [k |-> "untracked"]) ELSE Expire(s.q, s.p, s.c)
 
@@ -84,11 +85,12 @@ TStepImpl ==
        /\ ImplAct(r.s, r)
        /\ ~out'.panic
        /\ SameRet(r.s, out'.ret, r.ret)
-       /\ \A q \in Svc :
+       /\ \A q \in Svc \ deadq' :
             /\ \A p \in Peers : conns'[q][p] = r.view.conns[q + 1][p]
             /\ Len(SelectSeq(chan'[q], LAMBDA e : e.k # "filler")) = r.view.inbox[q + 1]
             /\ track'[q] = {<<r.view.track[q + 1][i][1], r.view.track[q + 1][i][2]>> : i \in 1..Len(r.view.track[q + 1])}
        /\ nextId' = r.view.next
+       /\ deadq' = {r.view.deadq[i] : i \in 1..Len(r.view.deadq)}
        /\ {c \in DOMAIN blk' : blk'[c].k # "none"} = {r.view.blk[i] : i \in 1..Len(r.view.blk)}
 
 TStepProp ==
